@@ -2015,6 +2015,213 @@ C_WF_CTX = 'insert_context prepends the context to exactly the tasks whose funct
 C_WF_PURE = 'a Workflow built from a builder is not changed by later builder operations'
 
 
+# ---- execute_workflow with Model objects among the static inputs; workflows started from inside a task ----
+
+C_WF_NEST = ('a workflow started with call_workflow from inside a task (distributed dispatcher) returns to that '
+             'task the reference value of its own output task, whatever the names and positions of its tasks and '
+             'of the tasks of the calling workflow, and the calling workflow returns its reference value')
+C_WF_NEST_ONCE = 'every task of the calling workflow and of the workflow started with call_workflow is called exactly once'
+WF_CALL = 'src/pharmpy/workflows/dispatchers/local_dask/call.py:call_workflow'
+NEST_TIMEOUT = 60    # seconds; a nested execution that does not come back is a failure, not a hang of the check
+
+
+def _show_static(x):
+    """static inputs as the task functions of the model-carrying cases report them: a Model by its name"""
+    from pharmpy.model import Model
+
+    return 'model:' + x.name if isinstance(x, Model) else x
+
+
+def _model_fn(uid, *args):
+    _CALLS.append(uid)
+    return ('M', None, (uid,) + tuple(_show_static(a) for a in args))
+
+
+def _model_ctx_fn(context, uid, *args):
+    _CALLS.append(uid)
+    return ('M', context, (uid,) + tuple(_show_static(a) for a in args))
+
+
+_NEST = {}
+
+
+def _nest_context():
+    """a minimal concrete Context (every abstract method does nothing); call_workflow is the one of the base class"""
+    if 'ctx' not in _NEST:
+        from pharmpy.workflows.contexts import Context
+
+        def nothing(*args, **kwargs):
+            return None
+
+        body = {name: nothing for name in Context.__abstractmethods__}
+        body['context_path'] = 'nest'
+        body['exists'] = staticmethod(nothing)
+        body['__init__'] = lambda self: None
+        body['log_info'] = body['log_message'] = body['log_warning'] = body['log_error'] = nothing
+        body['__reduce__'] = lambda self: (_nest_context, ())
+        _NEST['ctx'] = type('_NestContext', (Context,), body)()
+    return _NEST['ctx']
+
+
+def _nest_names(scheme, n, inner):
+    """names of the tasks of the calling (inner=False) and of the called workflow:
+    positional: task i is called t<i> in both (equal names at equal positions); shifted: t<i> and t<i+1> (equal
+    names at different positions); distinct: t<i> and u<i>; same: every task of both workflows is called task"""
+    if scheme == 'same':
+        return ['task'] * n
+    if inner and scheme == 'distinct':
+        return [f'u{i}' for i in range(n)]
+    if inner and scheme == 'shifted':
+        return [f't{i + 1}' for i in range(n)]
+    return [f't{i}' for i in range(n)]
+
+
+def _nest_fn(uid, *args):
+    _CALLS.append(uid)
+    return ('N', None, (uid,) + args)
+
+
+def _nest_inner(desc):
+    """(workflow, reference, specs) of the called workflow described by desc = [n, edges, names scheme]"""
+    from pharmpy.workflows import Task, Workflow
+
+    n, edges, scheme = desc
+    names = _nest_names(scheme, n, True)
+    tasks, specs = [], _Specs()
+    for i in range(n):
+        t = Task(names[i], _nest_fn, f'i{i}', i * 7)
+        specs[t] = _Spec(t, 'N', (f'i{i}', i * 7))
+        tasks.append(t)
+    wb, ref = _build_dag(tasks, edges, list(range(n)))
+    return Workflow(wb), ref, specs
+
+
+def _nest_caller(context, uid, desc_json, via, *args):
+    """task that starts the workflow described by desc_json and reports what it got back"""
+    import json
+
+    from pharmpy.workflows import local_dask
+
+    _CALLS.append(uid)
+    wf, _, _ = _nest_inner(json.loads(desc_json))
+    if via == 'context':
+        res = context.call_workflow(wf, 'called-results')
+    else:
+        res = local_dask.call_workflow(wf, 'called-results', context)
+    return ('C', None, (uid, desc_json, via) + args + (res,))
+
+
+def _with_timeout(fn, seconds):
+    """('value', v) / ('error', e) / ('timeout', None) of fn() run in a daemon thread"""
+    import threading
+
+    box = {}
+
+    def target():
+        try:
+            box['r'] = ('value', fn())
+        except BaseException as e:
+            box['r'] = ('error', e)
+
+    th = threading.Thread(target=target, daemon=True)
+    th.start()
+    th.join(seconds)
+    return box.get('r', ('timeout', None))
+
+
+def _check_exec_model(case, where):
+    """execute_workflow on a workflow in which the tasks marked in case['models'] carry a Model among their static
+    inputs: C_WF_EXEC / C_WF_ONCE / C_WF_PURE"""
+    import pharmpy.workflows.dispatchers as D
+    from pharmpy.model import Model
+    from pharmpy.workflows import Task, Workflow, execute_workflow, local_dask
+
+    out = []
+    n = case['n']
+    takes = bool(case.get('ctx'))
+    if 'models' not in _NEST:
+        _NEST['models'] = [Model().replace(name=f'm{i}') for i in range(6)]
+    tasks, specs = [], _Specs()
+    for i in range(n):
+        second = _NEST['models'][i] if case['models'][i] else i * 10
+        t = Task(f't{i}', _model_ctx_fn if takes else _model_fn, f't{i}', second)
+        specs[t] = _Spec(t, 'M', (f't{i}', _show_static(second)), ctx=takes)
+        tasks.append(t)
+    wb, ref = _build_dag(tasks, case['edges'], case['perm'], case['pred_order'], 'late_edges')
+    wf = Workflow(wb)
+    want = _ref_eval(ref, specs, context=CTX)[id(ref.outputs()[0])]
+    clause = C_WF_EXEC(False)
+    old = D.conf.dask_dispatcher
+    D.conf.dask_dispatcher = 'threaded'
+    try:
+        del _CALLS[:]
+        got = execute_workflow(wf, dispatcher=local_dask, context=CTX)
+        if got != want:
+            out.append((WF_EXEC, clause, f'{where}: result {got!r} reference {want!r}'))
+        elif sorted(_CALLS) != sorted(specs[t].uid for t in tasks):
+            out.append((WF_EXEC, C_WF_ONCE, f'{where}: calls {sorted(_CALLS)}'))
+    except Exception as e:
+        out.append((WF_EXEC, clause, f'{where}: raised {_exc(e)}'))
+    finally:
+        D.conf.dask_dispatcher = old
+    if len(wf) != n or [id(t) for t in wf.tasks] != [id(t) for t in ref.order]:
+        out.append((WF_EXEC, C_WF_PURE, f'{where}: the executed workflow changed'))
+    return out
+
+
+def _check_nested(case, where):
+    """a task of the executed workflow starts another workflow with call_workflow (distributed dispatcher)"""
+    import json
+
+    import pharmpy.workflows.dispatchers as D
+    from pharmpy.workflows import Task, Workflow, execute_workflow, local_dask
+
+    out = []
+    n, k = case['n'], case['k']
+    desc = [case['ni'], case['iedges'], case['names']]
+    desc_json = json.dumps(desc)
+    _, iref, ispecs = _nest_inner(desc)
+    ival = _ref_eval(iref, ispecs)[id(iref.outputs()[0])]
+    names = _nest_names(case['names'], n, False)
+    tasks, specs = [], _Specs()
+    for i in range(n):
+        if i == k:
+            t = Task(names[i], _nest_caller, f'o{i}', desc_json, case['via'])
+            # the caller reports (static inputs, results of its predecessors, what call_workflow returned)
+            specs[t] = _Spec(t, 'C', (f'o{i}', desc_json, case['via']))
+        else:
+            t = Task(names[i], _nest_fn, f'o{i}', i * 10)
+            specs[t] = _Spec(t, 'N', (f'o{i}', i * 10))
+        tasks.append(t)
+    wb, ref = _build_dag(tasks, case['edges'], list(range(n)))
+    wf = Workflow(wb)
+    # reference: sequential evaluation, the caller's value ends with the reference value of the called workflow
+    val = {}
+    for t in ref.order:       # tasks 0..n-1 with edges i<j: the entry order is a topological order
+        s = specs[t]
+        args = s.static + tuple(val[id(p)] for p in ref.preds(t))
+        val[id(t)] = (s.label, None, args + ((ival,) if t is tasks[k] else ()))
+    want = val[id(ref.outputs()[0])]
+    want_calls = sorted([specs[t].uid for t in tasks] + [ispecs[t].uid for t in iref.order])
+    ctx = _nest_context()
+    old = D.conf.dask_dispatcher
+    D.conf.dask_dispatcher = 'distributed'
+    try:
+        del _CALLS[:]
+        status, got = _with_timeout(lambda: execute_workflow(wf, dispatcher=local_dask, context=ctx), NEST_TIMEOUT)
+        if status == 'timeout':
+            out.append((WF_CALL, C_WF_NEST, f'{where}: no result within {NEST_TIMEOUT} s'))
+        elif status == 'error':
+            out.append((WF_CALL, C_WF_NEST, f'{where}: raised {_exc(got)}'))
+        elif got != want:
+            out.append((WF_CALL, C_WF_NEST, f'{where}: result {got!r} reference {want!r}'))
+        elif sorted(_CALLS) != want_calls:
+            out.append((WF_CALL, C_WF_NEST_ONCE, f'{where}: calls {sorted(_CALLS)} expected {want_calls}'))
+    finally:
+        D.conf.dask_dispatcher = old
+    return out
+
+
 def _graph_view(wf):
     tasks = wf.tasks
     ids = {id(t): i for i, t in enumerate(tasks)}
@@ -2470,6 +2677,10 @@ def _check_wf_case(case):
             D.conf.dask_dispatcher = old
         if len(wf) != n or [id(t) for t in wf.tasks] != [id(t) for t in tasks]:
             out.append((WF_EXEC, C_WF_PURE, f'{where}: the executed workflow changed'))
+    elif kind == 'exec_model':
+        out += _check_exec_model(case, where)
+    elif kind == 'nested':
+        out += _check_nested(case, where)
     else:
         raise ValueError(kind)
     return out
@@ -2562,6 +2773,39 @@ def _wf_cases(tier):
         for edges in _all_dags(n, True):
             for ks in itertools.product(few[:3], repeat=n):
                 yield {'kind': 'context', 'n': n, 'edges': edges, 'kinds': list(ks), 'rep': True}
+    # execute_workflow on workflows in which any subset of the tasks carries a Model among its static inputs:
+    # every entry order of the tasks, predecessor lists in both orders; no function or every function takes
+    # the context
+    for n in range(1, (4 if quick else 5) + 1):
+        for edges in _all_dags(n, True):
+            for perm in itertools.permutations(range(n)):
+                for mask in itertools.product((False, True), repeat=n):
+                    for po in ('asc', 'desc'):
+                        for ctx in (False, True) if n <= 3 else (False,):
+                            if n == 5 and (po == 'desc' or list(perm) not in ([0, 1, 2, 3, 4], [4, 3, 2, 1, 0],
+                                                                              [1, 3, 0, 4, 2])):
+                                continue
+                            yield {'kind': 'exec_model', 'n': n, 'edges': edges, 'perm': list(perm),
+                                   'pred_order': po, 'models': list(mask), 'ctx': ctx}
+
+
+NEST_SCHEMES = ('positional', 'shifted', 'distinct', 'same')
+
+
+def _wf_nested_cases(tier):
+    """a task (every position k) of every one-sink DAG starts every one-sink DAG with call_workflow"""
+    quick = tier == 'quick'
+    for n in range(1, (3 if quick else 4) + 1):
+        for edges in _all_dags(n, True):
+            for k in range(n):
+                for ni in range(1, (3 if quick else 4) + 1):
+                    for iedges in _all_dags(ni, True):
+                        for names in NEST_SCHEMES:
+                            for via in ('context', 'dispatcher'):
+                                if via == 'dispatcher' and (n + ni > 4 or names in ('shifted', 'distinct')):
+                                    continue
+                                yield {'kind': 'nested', 'n': n, 'edges': edges, 'k': k, 'ni': ni,
+                                       'iedges': iedges, 'names': names, 'via': via}
 
 
 def _wf_worker(items):
@@ -2573,8 +2817,9 @@ def _wf_worker(items):
         for fid, clause, detail in _check_wf_case(case):
             k = (fid, clause)
             _note_also(allf, k, case)
-            size = (case.get('n', 0) + case.get('a', 0) + case.get('b', 0),
-                    len(case.get('edges', [])) + len(case.get('ea', [])) + len(case.get('eb', [])),
+            size = (case.get('n', 0) + case.get('a', 0) + case.get('b', 0) + case.get('ni', 0),
+                    len(case.get('edges', [])) + len(case.get('ea', [])) + len(case.get('eb', []))
+                    + len(case.get('iedges', [])),
                     len(repr(case)))
             if k not in best or _smaller(size, case, detail, best[k]):
                 best[k] = (size, detail, case)
@@ -2584,7 +2829,8 @@ def _wf_worker(items):
 def bounded_workflows(tier):
     import pharmpy.workflows  # noqa: F401
 
-    jobs = _chunks(_wf_cases(tier), 150)
+    # the nested executions (a dask distributed cluster each) come last, in small chunks
+    jobs = itertools.chain(_chunks(_wf_cases(tier), 150), _chunks(_wf_nested_cases(tier), 6))
     cases, nontrivial, fails = _merge_fails(_run_jobs(_wf_worker, jobs), 'bounded_workflows_replay')
     quick = tier == 'quick'
     N = 4 if quick else 5
@@ -2601,14 +2847,22 @@ def bounded_workflows(tier):
              f'inserted workflow and replicates across both; insert_context and execute_workflow for '
              f'every assignment of {len(FN_KINDS)} function kinds to <=2 tasks and of '
              f'{3 if quick else 5} kinds to 3{"" if quick else " (3 kinds to 4)"} tasks, and of 3 kinds to '
-             f'2-{3 if quick else 4} replicate tasks (tasks of one kind equal in name, function and input)')
+             f'2-{3 if quick else 4} replicate tasks (tasks of one kind equal in name, function and input); '
+             f'execute_workflow (threaded) on every one-sink DAG with <={4 if quick else 5} tasks where every subset of '
+             f'the tasks carries a Model among its static inputs, every entry order, predecessor lists in both '
+             f'orders{"" if quick else " (5 tasks: 3 entry orders, one order of the lists)"}, no function or (<=3 '
+             f'tasks) every function taking the context; nested execution (distributed dispatcher): every task of '
+             f'every one-sink DAG with <={3 if quick else 4} tasks starts every one-sink DAG with <={3 if quick else 4} '
+             f'tasks with call_workflow, under 4 naming schemes (equal names at equal positions, equal names at '
+             f'different positions, distinct names, one name for all tasks), through Context.call_workflow and '
+             f'(<=4 tasks in all, 2 schemes) local_dask.call_workflow')
     return {
         'cases': cases,
         'nontrivial': nontrivial,
         'bound': bound,
         'samples': ["dag n=4 edges=[[0,3],[1,2],[2,3]] perm=[2,0,3,1] names=same",
-                    "insert a=2 b=2 preds={'list': [1, 0]} names=replica names_a=replica",
-                    "context kinds=['ctx_partial', 'plain', 'ctx_wrapped']"],
+                    "exec_model n=3 edges=[[0,2],[1,2]] perm=[1,0,2] models=[True,False,False]",
+                    "nested n=2 edges=[[0,1]] k=1 ni=2 iedges=[[0,1]] names=positional via=context"],
         'fails': fails,
     }
 
